@@ -685,6 +685,12 @@ class Engine:
             m = re.match(r'^fn\(.*\) (?:-> .* )?\{(.*)\}$', ty)
             if m:
                 return FnItem(m.group(1))
+        # a named constant of the crate (`const opts::DEFAULT_PATH`): evaluate its MIR item
+        last = text.rsplit('::', 1)[-1]
+        cands = [n for n in self.program if (n == text or n == last or n.endswith('::' + last)) and self.program[n][0].kind == 'const'
+                 and 'promoted[' not in n]
+        if len(cands) == 1:
+            return self.call_mir(self.func(cands[0]), [], frame.depth + 1)
         t = norm_type(text)
         m = re.match(r'^(u8|u16|u32|u64|usize|i8|i16|i32|i64|isize)::(MAX|MIN)$', t)
         if m:
